@@ -49,15 +49,19 @@ impl Clone for Bytes {
     fn clone(&self) -> (r: Bytes) ensures r@ == self@ { unimplemented!() }
 }
 
+// &BytesMut coerces to &[u8] too (indexing `buf[i]` goes through the slice and carries the slice's bounds precondition)
+impl core::ops::Deref for BytesMut {
+    type Target = [u8];
+    #[verifier::external_body]
+    fn deref(&self) -> (r: &[u8]) ensures r@ == self@ { unimplemented!() }
+}
+
 // &Bytes coerces to &[u8]
 impl core::ops::Deref for Bytes {
     type Target = [u8];
     #[verifier::external_body]
     fn deref(&self) -> (r: &[u8]) ensures r@ == self@ { unimplemented!() }
 }
-
-// UTF-8 bytes of a String (uninterpreted; related to other things only through the stand-ins that mention it)
-pub uninterp spec fn string_bytes(s: String) -> Seq<u8>;
 
 impl Bytes {
     // Bytes::from(String): takes over the string's bytes
